@@ -226,7 +226,7 @@ def graph_edges(graph):
     return out
 
 
-def mk_inmem(graph, latlon=False, linked=None, name="m"):
+def _mk_inmem(graph, latlon=False, linked=None, name="m"):
     load_repo()
     from leuvenmapmatching.map.inmem import InMemMap
     le = None
@@ -237,7 +237,7 @@ def mk_inmem(graph, latlon=False, linked=None, name="m"):
     return InMemMap(name, graph=graph_dict(graph), use_latlon=latlon, use_rtree=False, linked_edges=le)
 
 
-def mk_sqlite(graph, dirname, latlon=False, name="m", plan=None):
+def _mk_sqlite(graph, dirname, latlon=False, name="m", plan=None):
     """SqliteMap holding the model graph.  Without a plan: bulk add_nodes + add_edges.  With a plan (gen.load_plan): the
     map is built call by call with the per-call flags - ["node", label, no_index], ["node_again", label, other_loc]
     (add_node of a known label with ignore_doubles=True: documented to be ignored), ["edge", a, b, no_index],
@@ -286,7 +286,7 @@ FAMILIES = ("simple", "simple_n", "distance")
 FAMILIES4 = ("simple", "simple_n", "distance", "nk")  # + NewsonKrummMatcher, used by the checks that need no reference model
 
 
-def mk_matcher(mapobj, cfg):
+def _mk_matcher(mapobj, cfg):
     """cfg: {'family': simple|simple_n|distance, **matcher kwargs}"""
     load_repo()
     from leuvenmapmatching.matcher.simple import SimpleMatcher
@@ -305,6 +305,25 @@ def mk_matcher(mapobj, cfg):
         # public attribute (default 100): the maximal number of non-emitting states between two observations
         m.non_emitting_states_maxnb = cfg["ne_maxnb"]
     return m
+
+
+def mk_inmem(graph, latlon=False, linked=None, name="m"):
+    """InMemMap holding the model graph; an exception of the package while building it is a violation (clause load:...)."""
+    return pkg(_mk_inmem, graph, latlon=latlon, linked=linked, name=name, clause="load")
+
+
+def mk_sqlite(graph, dirname, latlon=False, name="m", plan=None):
+    return pkg(_mk_sqlite, graph, dirname, latlon=latlon, name=name, plan=plan, clause="load")
+
+
+mk_sqlite.__doc__ = _mk_sqlite.__doc__
+
+
+def mk_matcher(mapobj, cfg):
+    return pkg(_mk_matcher, mapobj, cfg, clause="construct")
+
+
+mk_matcher.__doc__ = _mk_matcher.__doc__
 
 
 def to_path(trace):
